@@ -4,9 +4,9 @@ usage: python3 tools/eval_seeded.py [name ...]      (sequential; applies each pa
 import json, os, re, subprocess, sys, time
 ROOT = '/verif'
 RELATED = {
-    'C01': ['C01', 'C03', 'C04'], 'C02': ['C02', 'C08', 'C04'], 'C03': ['C03', 'C04', 'C01'], 'C04': ['C04', 'C03'],
-    'C05': ['C05', 'C14'], 'C06': ['C06', 'C01'], 'C07': ['C07'], 'C08': ['C08'], 'C09': ['C09', 'C06'], 'C10': ['C10', 'C15'],
-    'C11': ['C11', 'C04', 'C03'], 'C12': ['C12'], 'C13': ['C13'], 'C14': ['C14'], 'C15': ['C15'], 'C16': ['C16'],
+    'C01': ['C01', 'C03', 'C04'], 'C02': ['C02', 'C08', 'C04'], 'C03': ['C03', 'C04', 'C01'], 'C04': ['C04', 'C03', 'C06'],
+    'C05': ['C05', 'C06'], 'C06': ['C06', 'C01'], 'C07': ['C07'], 'C08': ['C08'], 'C09': ['C09', 'C06'], 'C10': ['C10', 'C15', 'C05'],
+    'C11': ['C11', 'C04', 'C02'], 'C12': ['C12'], 'C13': ['C13'], 'C14': ['C14'], 'C15': ['C15'], 'C16': ['C16'],
     'C17': ['C17'], 'C18': ['C18'], 'C19': ['C19'], 'C20': ['C20'],
 }
 EVALREPO = '/var/tmp/evalrepo'    # scratch clone, so that /repo itself is never patched by this script
